@@ -103,8 +103,8 @@ def worldOfJson (j : Json) : PipelineCfg.World :=
                | some (some b) => some (TallyVerif.Csv.F64.ofBits (b.toNat?.getD 0))
                | _ => none
              strptime := fun f tok => match dates.lookup (String.ofList f ++ "\u0001" ++ String.ofList tok) with
-               | some (some d) => some d.toList
-               | _ => none }
+               | some (some d) => .ok d.toList
+               | _ => .error .valueError }
     special := fun _ => none }
 
 /-- the oracle questions `parsePlanned` asks about one planned call that the shipped tables leave open -/
